@@ -39,7 +39,6 @@ P = {
     "C03.l": "by evaluation of _init_class with sample classes (own vs inherited attributes): with inherits=None the class gets a new empty inheritor list of its own, also when it is a Python subclass of an initialised user class or was initialised before",
     "C03.m": "by evaluation of _determine_rule_types on 10 sample meta-models (rule bodies as parsing-expression trees), classes visited in grammar order and in reverse: rules with assignments are common; a rule without assignments referencing a non-match rule is abstract with exactly the non-match rules its alternatives yield as inheritors (match-rule references and syntactic predicates in front contribute nothing); all others are match rules",
     "C03.n": "by evaluation of parse_tree_to_objgraph.process_node / process_match on a sample parse tree (12 objects and values, sample meta-classes, recording meta-model stand-ins): an abstract rule yields the object of its first non-match alternative; a match rule yields its joined text converted once under the rule's own name",
-    "C03.j": "the static walkers of rule kind / inheritance inference skip syntactic predicates (And/Not leave no result at run time): every use of a node's .root in them lies where the node is known not to be a predicate",
     "C03.a": "every comparison with a RULE_*/MULT_* constant has a rule-kind / multiplicity operand (kind discipline)",
     "C03.b": "inside the change-driven fixpoint of _determine_rule_types every derived fact is recomputed each pass",
     "C03.c": "recursion over user-shaped cyclic graphs (_tx_inh_by, rule references) carries a visited set covering the recursive argument",
@@ -137,7 +136,7 @@ P = {
   technique="containment-only descent rule (control dependence / comprehension filters) + sibling-branch agreement"),
 "C11": dict(
   decided={
-    "C32.c": "a provider built from an RREL string and one built from a parsed grammar expression are configured alike: every read of the expression's flags (use_proxy, importURI) in create_rrel_scope_provider comes after the string was parsed",
+    "C32.c": "(shared) by evaluation of create_rrel_scope_provider with recording stand-ins for parse() and the provider classes: for every flag combination the string form and the pre-parsed form of an expression give the same provider class (the model-loading one iff +m), the same use_proxy, the parsed tree and the caller's split string",
     "C11.a": "find_object_with_path acceptance table: Postponed returned as is; accepted iff no name part remains and (no class or textx_isinstance); alternatives iterated in stored order, first hit; ReferenceProxy iff use_proxy",
     "C11.b": "every node class built by RRELVisitor defines the interface the evaluator calls",
     "C11.e": "RRELDots yields the ancestor only if all parent steps could be taken, otherwise no match",
@@ -288,7 +287,6 @@ P = {
     "C22.j": "visit_rule_param by evaluation: explicit skipws / noskipws / ws modifiers are read the same whatever the metamodel-wide setting",
     "C01.c": "(shared with C01) rule modifiers (ws/skipws) are installed only on expressions whose _parse honours them",
     "C22.h": "ws modifier: by evaluation over strings with and without escapes, the rule's whitespace set is exactly the characters the modifier names (newline iff \\n, carriage return iff \\r, tab iff \\t, blank iff a blank)",
-    "C22.b": "the Comment rule is looked up after all rules are visited and handed to the parser; ws escape table in visit_rule_params",
     "C22.d": "every rule parameter given in the grammar reaches the parameter table (no skip path in visit_rule_params)",
     "C22.e": "every root wrapper built while rule parameters may be present receives them",
     "C22.g": "the comment model handed to the parser is refreshed after rule references are resolved",
@@ -403,7 +401,7 @@ P = {
   decided={
     "C32.e": "visit_assignment records the RREL provider and match rule of an object reference on the attribute under no further condition",
     "C32.f": 'by evaluation of parse_tree_to_objgraph.process_node / process_match on a sample parse tree (12 objects and values, sample meta-classes, recording meta-model stand-ins): a queued reference carries the grammar provider (RREL) and match rule of its attribute, None where the attribute has none',
-    "C32.c": "a provider built from an RREL string and one built from a parsed grammar expression are configured alike: every read of the expression's flags (use_proxy, importURI) in create_rrel_scope_provider comes after the string was parsed","C32.a": "candidate key list is [Cls.attr, *.attr, Cls.*, *.*], scanned first-hit with default fallback; grammar RREL tested before the scan",
+    "C32.c": "(shared) by evaluation of create_rrel_scope_provider with recording stand-ins for parse() and the provider classes: for every flag combination the string form and the pre-parsed form of an expression give the same provider class (the model-loading one iff +m), the same use_proxy, the parsed tree and the caller's split string",
            "C32.b": "by evaluation of register_scope_providers on a sample table over an earlier registration: afterwards the table holds exactly the given keys, callables as given, every string replaced by the RREL provider made from it"},
   declined="nothing material",
   technique="abstract string classification of the key list + loop shape"),
@@ -417,10 +415,6 @@ P = {
   technique="field-coverage table agreement between get_location and the handler"),
 "C34": dict(
   decided={
-    "C34.b": "the position list is sorted before exposure when a defer path / several models exist",
-    "C34.c": "innermost object wins for a shared span",
-    "C34.d": "spans ordered start descending, end ascending",
-    "C34.g": "position lists are sorted after the resolution loop for every model of the load",
     "C34.f": "every created object is entered into the span map (None-test, not truth value)",
     "C34.h": "by evaluation of a resolver round with tool support on and off: every resolved model reference is recorded once with the reference's own start/end offsets and the target's file and span; builtin targets (plain objects) are not recorded and do not break the load; nothing is recorded with tool support off",
     "C34.i": 'by evaluation of parse_tree_to_objgraph.process_node / process_match on a sample parse tree (12 objects and values, sample meta-classes, recording meta-model stand-ins): with tool support every object is registered under its span, the innermost object for a shared span',
